@@ -7,6 +7,7 @@
 // Author: Shuo Chen (chenshuo at chenshuo dot com)
 
 #include "muduo/net/EventLoop.h"
+#include "muduo/base/VerifHooks.h"
 
 #include "muduo/base/Logging.h"
 #include "muduo/base/Mutex.h"
@@ -105,14 +106,17 @@ void EventLoop::loop()
   assert(!looping_);
   assertInLoopThread();
   looping_ = true;
+  MUDUO_VERIF_POINT("EventLoop::loop:entry", this);
   quit_ = false;  // FIXME: what if someone calls quit() before loop() ?
   LOG_TRACE << "EventLoop " << this << " start looping";
 
   while (!quit_)
   {
     activeChannels_.clear();
+    MUDUO_VERIF_POINT("EventLoop::loop:beforePoll", this);
     pollReturnTime_ = poller_->poll(kPollTimeMs, &activeChannels_);
     ++iteration_;
+    MUDUO_VERIF_POINT("EventLoop::loop:afterPoll", this);
     if (Logger::logLevel() <= Logger::TRACE)
     {
       printActiveChannels();
@@ -127,7 +131,9 @@ void EventLoop::loop()
     currentActiveChannel_ = NULL;
     eventHandling_ = false;
     doPendingFunctors();
+    MUDUO_VERIF_POINT("EventLoop::loop:afterFunctors", this);
   }
+  MUDUO_VERIF_POINT("EventLoop::loop:exit", this);
 
   LOG_TRACE << "EventLoop " << this << " stop looping";
   looping_ = false;
@@ -136,6 +142,7 @@ void EventLoop::loop()
 void EventLoop::quit()
 {
   quit_ = true;
+  MUDUO_VERIF_POINT("EventLoop::quit:stored", this);
   // There is a chance that loop() just executes while(!quit_) and exits,
   // then EventLoop destructs, then we are accessing an invalid object.
   // Can be fixed using mutex_ in both places.
@@ -163,6 +170,7 @@ void EventLoop::queueInLoop(Functor cb)
   MutexLockGuard lock(mutex_);
   pendingFunctors_.push_back(std::move(cb));
   }
+  MUDUO_VERIF_POINT("EventLoop::queueInLoop:appended", this);
 
   if (!isInLoopThread() || callingPendingFunctors_)
   {
@@ -255,15 +263,18 @@ void EventLoop::doPendingFunctors()
 {
   std::vector<Functor> functors;
   callingPendingFunctors_ = true;
+  MUDUO_VERIF_POINT("EventLoop::doPendingFunctors:beforeSwap", this);
 
   {
   MutexLockGuard lock(mutex_);
   functors.swap(pendingFunctors_);
   }
+  MUDUO_VERIF_POINT("EventLoop::doPendingFunctors:afterSwap", this);
 
   for (const Functor& functor : functors)
   {
     functor();
+    MUDUO_VERIF_POINT("EventLoop::doPendingFunctors:functorDone", this);
   }
   callingPendingFunctors_ = false;
 }
